@@ -9,11 +9,17 @@ def _s(v):
     return '' if v is None else str(v)
 
 
+def _iv(v):
+    return int(getattr(v, '_value', -1)) if v is not None and hasattr(v, '_value') else -1
+
+
 def act_of(A, nc, get, V0=None):
     "common shape for a record action and a JSON action; get(cstate, cid) -> dict or None"
-    o = dict(tag=A['tag'], msg=A['msg'], round=A['round'], quota='', votes='', nt='', residual='', surplus='', cs=[])
+    o = dict(tag=A['tag'], msg=A['msg'], round=A['round'], quota='', votes='', nt='', residual='', surplus='', cs=[],
+             nti=-1, votesi=-1, residuali=-1, surplusi=-1)
     if A['tag'] == 'log':
         return o
+    o['nti'], o['votesi'], o['residuali'], o['surplusi'] = _iv(A.get('nt_votes')), _iv(A.get('votes')), _iv(A.get('residual')), _iv(A.get('surplus'))
     o['quota'] = _s(A.get('quota'))
     o['votes'] = _s(A.get('votes'))
     o['nt'] = _s(A.get('nt_votes'))
@@ -27,7 +33,7 @@ def act_of(A, nc, get, V0=None):
         zeq = bool(V0 is not None and v is not None and not isinstance(v, str) and v == V0)
         z = bool(V0 is not None and v is not None and not isinstance(v, str) and not v)
         cs.append(dict(state=d.get('state', ''), code=d.get('code', ''), vote=_s(v), kf=_s(d.get('kf')),
-                       quot=_s(d.get('quotient')), pend=bool(d.get('pending')), zeq=zeq, z=z))
+                       quot=_s(d.get('quotient')), pend=bool(d.get('pending')), zeq=zeq, z=z, vi=_iv(v)))
     o['cs'] = cs
     return o
 
@@ -35,7 +41,11 @@ def act_of(A, nc, get, V0=None):
 _CAND = re.compile(r'^\t(Elected|Pending|Hopeful|Defeated): +(.*) \(([^()]*)\)$')
 
 
-def parse_report(rep, quota_name):
+_SUMS = {'Elected votes': 'ev', 'Pending votes': 'pv', 'Hopeful votes': 'hv', 'Defeated votes': 'dv', 'Nontransferable votes': 'ntv',
+         'Residual': 'res', 'Total': 'tot', 'Surplus': 'sur', 'Votes': 'votes'}
+
+
+def parse_report(rep, quota_name, toint=None):
     blocks = re.split(r'(?m)^Action: ', rep)[1:]
     out = []
     for b in blocks:
@@ -43,6 +53,7 @@ def parse_report(rep, quota_name):
         msg = lines[0]
         cand = []
         quota = ''
+        sums = {v: -1 for v in _SUMS.values()}
         for l in lines[1:]:
             if l.startswith('Round ') or (l and not l.startswith('\t')):
                 break
@@ -51,7 +62,9 @@ def parse_report(rep, quota_name):
                 cand.append(dict(label=m.group(1), names=m.group(2).split(', '), fig=m.group(3)))
             elif l.startswith('\t%s: ' % quota_name):
                 quota = l.split(': ', 1)[1]
-        out.append(dict(msg=msg, cand=cand, quota=quota))
+            elif l.startswith('\t') and ': ' in l and l[1:].split(': ', 1)[0] in _SUMS and toint is not None:
+                sums[_SUMS[l[1:].split(': ', 1)[0]]] = toint(l.split(': ', 1)[1])
+        out.append(dict(msg=msg, cand=cand, quota=quota, sums=sums))
     return out
 
 
@@ -69,8 +82,10 @@ def build(E):
         X['json_ok'] = True
         X['json'] = [act_of(A, nc, lambda cs, cid: cs.get(str(cid))) for A in J['actions']]
         for a, ja in zip(X['acts'], X['json']):     # the two flags are harness observations of the in-memory values, not JSON content
+            for k in ('nti', 'votesi', 'residuali', 'surplusi'):
+                ja[k] = a[k]
             for c, jc in zip(a['cs'], ja['cs']):
-                jc['zeq'], jc['z'] = c['zeq'], c['z']
+                jc['zeq'], jc['z'], jc['vi'] = c['zeq'], c['z'], c['vi']
     except Exception:
         X['json_ok'] = False
         X['json'] = []
@@ -78,5 +93,21 @@ def build(E):
     if d and d[-1] == '':
         d = d[:-1]
     X['dump'] = dict(hdr=d[0].split('\t'), rows=[r.split('\t') for r in d[1:]])
-    X['report'] = parse_report(E.report(), E.rule.quota_name)
+    V = E.V
+    exactprint = V.name in ('fixed', 'integer') and V.display == V.precision and E.nBallots * 10 ** V.precision < 2 ** 29
+    X['tot'] = bool(exactprint)
+    X['nS'] = E.nBallots * 10 ** V.precision if exactprint else 0
+
+    def toint(s):
+        s = s.strip()
+        if not exactprint:
+            return -1
+        neg = s.startswith('-')
+        if '.' in s:
+            ip, fp = s.lstrip('-').split('.')
+            val = int(ip) * 10 ** V.precision + int(fp.ljust(V.precision, '0')[:V.precision]) if V.precision else int(ip)
+        else:
+            val = int(s.lstrip('-')) * (10 ** V.precision if V.precision else 1) if V.precision == 0 else int(s.lstrip('-')) * 10 ** V.precision
+        return -val if neg else val
+    X['report'] = parse_report(E.report(), E.rule.quota_name, toint)
     return X
